@@ -191,7 +191,9 @@ func (c *concretiser) drawn() string {
 			rs[i] = alphabet[c.r.Intn(len(alphabet))]
 		}
 		s := string(rs)
-		if strings.Trim(s, ".") == "" || c.used[s] { // dot segments are in the pool already
+		// (numerals are in the pools already; a drawn "0" bound to an integer field would be the field's default, which a
+		// proto3 message does not show as set)
+		if strings.Trim(s, ".") == "" || strings.Trim(s, "+-0123456789.") == "" || c.used[s] { // dot segments are in the pool already
 			continue
 		}
 		c.used[s] = true
